@@ -1,6 +1,6 @@
 """Helpers shared by the rule files."""
 import re
-from sym import Lin, as_lin, add, sub, const, tag, show, is_const, norm, struct_get
+from sym import Lin, as_lin, add, sub, const, tag, show, is_const, norm, struct_get, implied_facts
 from order import Order, term_eq
 
 INT_SIZE = {"u8": 1, "i8": 1, "u16": 2, "i16": 2, "u32": 4, "i32": 4, "u64": 8, "i64": 8, "u128": 16, "i128": 16, "usize": 8, "isize": 8}
@@ -241,3 +241,53 @@ def implied_facts_of(ev, res, e):
     for g in e.get("extra_guards", []) or []:
         gs.append((g, ("eq", 1)))
     return implied_facts(gs)
+
+
+def term_map(t, f, depth=0):
+    """Rebuild term t bottom-up, replacing every sub-term x for which f(x) is not None by f(x)."""
+    if depth > 60:
+        return t
+    r = f(t)
+    if r is not None:
+        return r
+    if isinstance(t, Lin):
+        from sym import scale
+        out = const(t.c)
+        for a, c in t.m.items():
+            out = add(out, scale(term_map(a, f, depth + 1), c))
+        return out
+    if isinstance(t, tuple):
+        return tuple(term_map(x, f, depth + 1) if isinstance(x, (tuple, Lin)) else x for x in t)
+    return t
+
+
+def split_on_own_phis(ctx, ev, res, e, terms):
+    """A site whose operands are joins made in the evaluated function's own frame (`let (a, b) = if c { .. } else { .. }; use(a, b)`)
+    is the same as one site per incoming edge.  Returns [(terms', facts')]: one entry per incoming edge of the (single) own-frame
+    join the terms mention, the phis replaced by that edge's alternative and the edge's guards added; [(terms, facts)] if none."""
+    fs = ctx.facts_of(ev, e)
+    own = "%s@" % res.body.name
+    phis = []
+    for t in terms:
+        def grab(x):
+            if tag(x) == "phi" and len(x) > 4 and x[4] and all(o is not None for o in x[4]) and len(x[1]) == 1 and str(x[1][0]).startswith(own):
+                phis.append(x)
+                return x
+            return None
+        term_map(t, grab)
+    sites = set((x[1], tuple(x[4])) for x in phis)
+    if len(sites) != 1:
+        return [(list(terms), fs)]
+    (site, origins), = sites
+    try:
+        jb = int(str(site[-1]).split("@")[-1])
+    except ValueError:
+        return [(list(terms), fs)]
+    out = []
+    for i, o in enumerate(origins):
+        def rep(x, i=i):
+            if tag(x) == "phi" and len(x) > 4 and x[1] == site and tuple(x[4]) == origins:
+                return x[3][i]
+            return None
+        out.append(([term_map(t, rep) for t in terms], set(fs) | set(implied_facts(ev.guards_edge(res, o, jb)))))
+    return out
